@@ -444,6 +444,48 @@ def joined_str_parts(node):
     return res
 
 
+def str_template(node):
+    """Normalised template of a string-building expression:
+    ``'..{0:3s}..'.format(a, b)`` or an f-string ->
+    [('lit', text) | ('fld', <expr text>, <spec without the s/< defaults>)];
+    None for anything else."""
+    def nspec(spec):
+        return (spec or '').replace('<', '').rstrip('s')
+    if isinstance(node, ast.JoinedStr):
+        res = []
+        for part in joined_str_parts(node):
+            if part[0] == 'lit':
+                res.append(('lit', part[1]))
+            else:
+                res.append(('fld', norm(part[1]), nspec(part[2])))
+        return res
+    if isinstance(node, ast.Call) and isinstance(node.func, ast.Attribute) and node.func.attr == 'format' \
+            and isinstance(node.func.value, ast.Constant) and isinstance(node.func.value.value, str):
+        res = []
+        auto = 0
+        for lit, field, spec, _conv in string.Formatter().parse(node.func.value.value):
+            if lit:
+                res.append(('lit', lit))
+            if field is None:
+                continue
+            if field == '':
+                idx = auto
+                auto += 1
+            elif field.isdigit():
+                idx = int(field)
+            else:
+                kw = [k.value for k in node.keywords if k.arg == field]
+                if not kw:
+                    return None
+                res.append(('fld', norm(kw[0]), nspec(spec)))
+                continue
+            if idx >= len(node.args):
+                return None
+            res.append(('fld', norm(node.args[idx]), nspec(spec)))
+        return res
+    return None
+
+
 def concat_str(node, env=None):
     """Evaluate implicit/explicit concatenation of string constants."""
     if isinstance(node, ast.Constant) and isinstance(node.value, str):
